@@ -130,7 +130,41 @@ def _sweep(ctx, model, n, start, stop_at_first=False):
     return agg
 
 
+def grid_units_tie(ctx):
+    """pybads.search.grid_units(x, var_trans) is the transform applied row by row: it must agree with the transformer itself for every
+    spelling of the rows (float / integer dtype, one or several rows).  Returns None or a description of the first disagreement."""
+    import numpy as np
+    from pybads.search import grid_units
+    from pybads.variable_transformer import VariableTransformer
+    rng = ctx.rng
+    n = 0
+    for _ in range(40):
+        D = rng.choice([1, 2, 3])
+        lb = np.array([[rng.choice([-10.0, -3.0, 0.5]) for _ in range(D)]])
+        ub = lb + np.array([[rng.choice([8.0, 20.0, 400.0]) for _ in range(D)]])
+        plb = lb + (ub - lb) * 0.1
+        pub = lb + (ub - lb) * 0.8
+        vt = VariableTransformer(D, lb, ub, plb, pub)
+        rows = rng.choice([1, 2, 5])
+        Xi = np.array([[int(round(rng.uniform(float(lb[0, j]) + 1, float(ub[0, j]) - 1))) for j in range(D)] for _ in range(rows)])
+        for X in (Xi.astype(float), Xi, Xi.astype(np.int32)):
+            ref = np.vstack([vt(np.asarray(r, dtype=float).reshape(1, -1)) for r in X])
+            try:
+                got = np.asarray(grid_units(X, vt), dtype=float).reshape(ref.shape)
+            except Exception as ex:
+                return f"grid_units raised {type(ex).__name__} on {X.dtype} rows {X.tolist()}"
+            n += 1
+            if not np.array_equal(got, ref):
+                return (f"grid_units({X.tolist()} as {X.dtype}) = {got.tolist()} but the transformer maps these rows to {ref.tolist()} "
+                        f"(box lb={lb.tolist()} ub={ub.tolist()})")
+    ctx.count(n, n)
+    return None
+
+
 def tie(ctx, broken):
+    gu = grid_units_tie(ctx)
+    if not ctx.oblige("grid_units_is_the_transform", "correspondence", gu is None, str(gu)):
+        ctx.violate("grid-units-disagrees", gu, dict(kind="grid_units"))
     model = _model(ctx)
     n = 1500 if ctx.quick else 30000
     agg = _sweep(ctx, model, n, 0)
@@ -240,6 +274,10 @@ def search(ctx, broken):
 
 def replay(ctx, rp):
     r = rp["replay"]
+    if r.get("kind") == "grid_units":
+        gu = grid_units_tie(ctx)
+        print("replay grid_units:", gu or "agrees with the transformer on every spelling")
+        return 1 if gu else 0
     if r.get("kind") == "bads_flag":
         bf = H.bads_flag_check()
         ok = all((all(fl) if ns else not any(fl)) for ns, fl in bf)
